@@ -298,6 +298,11 @@ func parseSafe(s string, t reflect.Type) (o Out) {
 	return Out{V: v, T: v.Type()}
 }
 
+// OracleEntry runs parse.String(s, t) and prints the table entry for the model.
+func OracleEntry(s string, t reflect.Type) string {
+	return "(" + coqfmt.Str(s) + ", " + rty.TyTerm(t) + ", " + ValueOutcome(parseSafe(s, t)) + ")"
+}
+
 // Filled is a translated value with a random subset of its fields set.
 type Filled struct {
 	V       reflect.Value
